@@ -23,11 +23,11 @@ import (
 
 type c01case struct {
 	kind    string
-	mk      func() io.Reader      // fresh encoder for the object
-	want    []byte                // reference encoding
+	mk      func() io.Reader       // fresh encoder for the object
+	want    []byte                 // reference encoding
 	decode  func(enc []byte) error // decoder checks against the object (may be nil)
-	varLen  int                   // total length of variable parts
-	minBuf  int                   // smallest buffer the harness pairs with this object
+	varLen  int                    // total length of variable parts
+	minBuf  int                    // smallest buffer the harness pairs with this object
 	summary string
 }
 
